@@ -34,6 +34,17 @@ UNITS = ["", "m", "km", "mm"]
 
 
 def generate(tape, tier="quick"):
+    if tape.chance(1, 5):
+        # delay-resolved rings (also with initial data travelling around the ring during connect, and unresolved
+        # rings): the outcome - success or the circular-coupling error - must not depend on the order either
+        from .c04 import generate as gen_ring
+        sc = gen_ring(tape, tier, force_regime=tape.choice(["b2", "b", "a2", "b2"]))
+        n, m = len(sc["components"]), len(sc["links"])
+        sc["fault"] = "cycle" if sc["regime"] in ("a", "a2") else None
+        sc["conv"] = True           # no model comparison here (C04 judges the values' schedule)
+        sc["perms"] = [[tape.shuffle(list(range(n))), tape.shuffle(list(range(m)))] for _ in range(5)]
+        sc["listing"], sc["link_order"] = list(range(n)), list(range(m))
+        return sc
     sc = gen_e1(tape, tier, allow_delay_push=False, max_sim=4, pull_fanout=False)
     comps, links = sc["components"], sc["links"]
     # units: producers declare, consumers either take over or ask for a convertible unit
